@@ -165,7 +165,7 @@ Proof. exact g_restrict_spec. Qed.
 Print Assumptions C12_restrict_preserves.
 
 Theorem C12_get_preserves : forall g a b,
-  WFg g -> Rg g -> a <= b ->
+  WFg g -> Rg g -> (a <= b \/ g_entries g = []) ->
   exists g', g_get g a b = Some g'
     /\ WFg g' /\ Rg g' /\ g_sup g' = g_sup g /\ g_hastag g' = g_hastag g
     /\ g_entries g' = map_members (fun m => ts_get m a b) (g_entries g)
